@@ -17,7 +17,9 @@ Layout (JSON dict, every key optional; no RNG - all variation comes from the lay
     semi (';'-joined statements);  blank, comments, trailing (decoration);  endjoin (ENDDO/ENDIF/ELSEIF/SELECTCASE);
     endjoin_unit (ENDSUBROUTINE ...), endjoin_iface (ENDINTERFACE), endjoin_type (ENDTYPE);  spaces 0..2;
     maxlen;  dcolon (optional '::');  relop 0 symbols, 1 dotted, 2 mixed;  leadcomment/tailcomment (comment lines
-    before the first / after the last unit);  between (comment lines between units);  stream [ints] choice stream.
+    before the first / after the last unit);  between (comment lines between units);  stream [ints] choice stream;
+    leadblank (the file may start with a blank line);  end_gap (END SUBROUTINE <name> of internal procedures may have
+    more than one blank / a line break before the name).
 """
 from .gen import COMMENTS, QUOTE_COMMENTS
 
@@ -202,6 +204,8 @@ class Renderer:
             self.rawline(ind + '! ' + COMMENTS[self.ch.pick(len(COMMENTS))], 'comment')
 
     def rawline(self, text, tag, unit=None):
+        if not text.strip() and not self.lines and not self.L.get('leadblank'):
+            return      # a file that starts with a blank line is the trigger of a listed finding (C20)
         self.lines.append(text)
         n = len(self.lines)
         self.out.stmts.append({'tag': tag, 'span': [n, n], 'unit': unit, 'shared': False, 'pos': 0, 'cont': False,
